@@ -2,6 +2,7 @@ import H2V.Driver.Core
 import H2V.Driver.Codec
 import H2V.Driver.Wire
 import H2V.Driver.Comp
+import H2V.Spec.WriteMon
 open H2V H2V.Driver
 
 structure AllState where
@@ -9,9 +10,28 @@ structure AllState where
   codec : CState := {}
   wire : H2V.Spec.Wire.WSt := {}
   comp : CompState := {}
+  wmon : H2V.Spec.WriteMon.St := {}
+
+def showV (vs : List String) : String := if vs.isEmpty then "ok" else "FAIL " ++ " ;; ".intercalate vs
+
+/-- `mon_wr …`: the write-side monitor of C12 (H2V/Spec/WriteMon.lean) on the real codec's output -/
+def handleWriteMon (s : H2V.Spec.WriteMon.St) (ws : List String) : Option (H2V.Spec.WriteMon.St × String) :=
+  match ws with
+  | ["mon_wr", "new"] => some ({}, "ok")
+  | ["mon_wr", "maxf", n] => n.toNat?.map fun n => ({ s with maxf := max s.maxf n }, "ok")
+  | ["mon_wr", "item"] => some ({ s with items := s.items + 1 }, "ok")
+  | ["mon_wr", "out", h] =>
+    match Hex.toBytes? h with
+    | some bs => let (s', vs) := H2V.Spec.WriteMon.out s bs; some (s', showV vs)
+    | none => none
+  | ["mon_wr", "shut"] => some (s, showV (H2V.Spec.WriteMon.shut s))
+  | _ => none
 
 def stepLine (st : AllState) (line : String) : AllState × String :=
   let ws := (line.trimAscii.toString.splitOn " ").filter (· ≠ "")
+  match handleWriteMon st.wmon ws with
+  | some (m, out) => ({ st with wmon := m }, out)
+  | none =>
   match handleCore st.core ws with
   | some (c, out) => ({ st with core := c }, out)
   | none =>
